@@ -172,17 +172,24 @@ pub fn run_case(c: &Case) -> CaseOut {
     let mut out = CaseOut::default();
     match c {
         Case::TreeTree { a, b, op, elim_a } => {
-            let rec = json!({"a": a.to_json(), "b": b.to_json(), "op": op.to_string(), "a_eliminated_first": elim_a});
+            // second pass for small operands: both built over arenas whose root was replaced with add_root (root not
+            // at node 0, a former tree left behind unreachable)
+            let passes = if a.n_nodes() <= 3 && b.n_nodes() <= 3 { 2 } else { 1 };
+            for rr in 0..passes {
+            let rec = json!({"a": a.to_json(), "b": b.to_json(), "op": op.to_string(), "a_eliminated_first": elim_a, "rerooted": rr == 1});
             // operand storage: every combination of row-major / column-major matrices, re-used indices
             // (incl. depth-first against interleaved: the same indices with the children attached in the other order)
             let lsel = (a.n_nodes() * 3 + b.n_nodes() + (*op as usize)) % 6;
-            let mut ta: AffTree<2> = a.build_layout([0u8, 3, 2, 3, 0, 4][lsel]);
-            let tb: AffTree<2> = b.build_layout([3u8, 0, 3, 1, 4, 0][lsel]);
+            let mut ta: AffTree<2> = if rr == 1 { a.build_rerooted((lsel % 2) as u8) } else { a.build_layout([0u8, 3, 2, 3, 0, 4][lsel]) };
+            let tb: AffTree<2> = if rr == 1 { b.build_rerooted((lsel / 2 % 2) as u8) } else { b.build_layout([3u8, 0, 3, 1, 4, 0][lsel]) };
             let sa0 = snap(&ta);
             if *elim_a {
                 if catch(|| ta.infeasible_elimination()).is_err() {
                     return out;
                 }
+            }
+            if rr == 1 {
+                out.add("rerooted_operand_pairs", 1);
             }
             let sb = snap(&tb);
             let (sa_ref, sb_ref) = (sa0.clone(), sb.clone());
@@ -229,6 +236,7 @@ pub fn run_case(c: &Case) -> CaseOut {
             }
             if out.sample.is_none() && a.n_nodes() > 1 && b.n_nodes() > 1 {
                 out.sample = Some(rec);
+            }
             }
         }
         Case::TreeAff { a, f, op, elim_a } => {
